@@ -72,22 +72,12 @@ func DecodeQ(rows []Row, in []byte) (es []Elem, quirk bool, ok bool) {
 	for off < len(in) {
 		t := in[off]
 		off++
-		idx := -1
-		for i, r := range rows {
-			if !r.Opt {
-				continue
-			}
-			if r.F == FTV1 {
-				if t >= 0x80 && t>>4 == r.IEI {
-					idx = i
-				}
-				if t == r.IEI {
-					quirk = true
-				}
-			} else if t < 0x80 && t == r.IEI {
-				idx = i
+		for _, r := range rows {
+			if r.Opt && r.F == FTV1 && t == r.IEI {
+				quirk = true
 			}
 		}
+		idx := matchRow(rows, t)
 		if idx < 0 {
 			continue
 		}
@@ -115,6 +105,25 @@ func DecodeQ(rows []Row, in []byte) (es []Elem, quirk bool, ok bool) {
 		}
 	}
 	return es, quirk, true
+}
+
+// matchRow: index of the optional row identified by the octet t, -1 if none. Identifiers within one table are
+// distinct, so the first match is the only one. (Returning from inside the loop keeps the index concrete on every
+// path of the symbolic execution instead of merging it into one symbolic index.)
+func matchRow(rows []Row, t uint8) int {
+	for i, r := range rows {
+		if !r.Opt {
+			continue
+		}
+		if r.F == FTV1 {
+			if t >= 0x80 && t>>4 == r.IEI {
+				return i
+			}
+		} else if t < 0x80 && t == r.IEI {
+			return i
+		}
+	}
+	return -1
 }
 
 // lenOK: is l an admissible length for row r?
